@@ -26,9 +26,12 @@ CONSTANTS Roles,     \* endpoint under test: "client_gm", "server_gm", "server_a
 \* the honest sequence of plaintext handshake messages the endpoint under test RECEIVES
 ToClient(gm, ca) == <<"SH", "CERT">> \o (IF gm THEN <<"SKE">> ELSE <<>>) \o (IF ca THEN <<"CREQ">> ELSE <<>>) \o <<"SHD">>
 ToServer(ca) == <<"CH">> \o (IF ca THEN <<"CERT">> ELSE <<>>) \o <<"CKE">> \o (IF ca THEN <<"CV">> ELSE <<>>)
-IsClient(r) == r \in {"client_gm", "client_tls"}
-IsGM(r) == r \in {"client_gm", "server_gm", "server_auto_gm"}
-Honest(r, ca) == IF IsClient(r) THEN ToClient(IsGM(r), ca) ELSE ToServer(ca)
+\* further roles (thorough tier): the other GMSSL suite, TLS 1.2 with an ECDHE suite (the server sends a
+\* ServerKeyExchange as in GMSSL), TLS 1.0 with a CBC suite
+IsClient(r) == r \in {"client_gm", "client_tls", "client_gm_gcm", "client_tls_ecdhe", "client_tls10"}
+IsGM(r) == r \in {"client_gm", "server_gm", "server_auto_gm", "client_gm_gcm", "server_gm_gcm"}
+HasSKE(r) == IsGM(r) \/ r \in {"client_tls_ecdhe", "server_tls_ecdhe"}
+Honest(r, ca) == IF IsClient(r) THEN ToClient(HasSKE(r), ca) ELSE ToServer(ca)
 
 \* grammar of the endpoint: set of message kinds acceptable after having accepted the honest prefix of length k
 Accept(r, ca, k) == LET h == Honest(r, ca) IN IF k < Len(h) THEN {h[k + 1]} ELSE {"CCS"}
